@@ -632,6 +632,8 @@ fn battery() -> Vec<Entry> {
         "ChoiceBody" => ChoiceBody,
         "Vec<ChoiceBody>" => Vec<ChoiceBody>,
         "Vec<BodyVec>" => Vec<BodyVec>,
+        "AttrOfBodyVec" => AttrOfBodyVec,
+        "AttrOfBodyStruct" => AttrOfBodyStruct,
     ]);
     all.extend(entries!["derived-header":
         "HeaderBodyLastVec" => HeaderBodyLastVec,
